@@ -16,6 +16,7 @@ import collections
 import json
 import os
 import random
+import shutil
 import subprocess
 
 from harness import core
@@ -324,6 +325,7 @@ def run(ck):
                 ck.corr_problem("a traced run could not be written as a model case (%s)" % type(ex).__name__, repr(ex)[:300])
     runs += unusual_value_oracle(ck)
     runs += scripted_clock_oracle(ck)
+    runs += clock_step_back_oracle(ck)
     bad, errs = tl.evaluate("C07", texts)
     for k, rc, out in errs:
         ck.corr_problem("correspondence shard %d did not evaluate (rc=%s)" % (k, rc), out)
@@ -377,6 +379,42 @@ def run(ck):
     ck.notes["generator_distribution"] = dict(sorted(stats.items()))
     ck.cov["trusted_base"] = TRUSTED
     ck.log("runs %d, SERs %d, compared in Coq %d (disagreements %d), findings %s" % (runs, sers_checked, len(texts), len(bad), sorted(reported)))
+
+
+def clock_step_back_oracle(ck):
+    """Direct oracle: the host's wall clock is set back five seconds while a node runs (an NTP step).  Durations are measured
+    times, not differences of wall-clock readings: every SER still reports wall_ms >= 0 and cpu_ms >= 0."""
+    import tempfile, time as _t
+    from semantiva.context_processors import ContextType
+    from semantiva.pipeline import Payload, Pipeline
+    from semantiva.trace.drivers.jsonl import JsonlTraceDriver
+    from harness.lib import components as C
+    pg.setup_impl()
+    d = tempfile.mkdtemp(prefix="verif_c07clock_")
+    real = _t.time
+    C.VerifClockStepBackOperation.real_time = real
+    try:
+        path = os.path.join(d, "t.ser.jsonl")
+        cfg = [{"processor": "FloatValueDataSource", "parameters": {"value": 2.0}}, {"processor": C.VerifClockStepBackOperation},
+               {"processor": "FloatMultiplyOperation", "parameters": {"factor": 3.0}}]
+        try:
+            Pipeline(cfg, trace=JsonlTraceDriver(path, detail="hash")).process(Payload(None, ContextType({})))
+        finally:
+            _t.time = real
+        sers = [json.loads(l) for l in open(path) if l.strip()]
+        sers = [r for r in sers if r.get("record_type") == "ser"]
+        neg = [(i, r["timing"]) for i, r in enumerate(sers) if r.get("timing", {}).get("wall_ms", 0) < 0 or r.get("timing", {}).get("cpu_ms", 0) < 0]
+        if neg:
+            ck.fail_input("C07:ser:timing:negative-duration-when-the-wall-clock-steps-back",
+                          "the wall clock is set back 5 s while node 1 runs: SER %d reports timing %s" % neg[0],
+                          {"kind": "clock-step-back", "config": ["FloatValueDataSource(value=2.0)", "VerifClockStepBackOperation", "FloatMultiplyOperation(factor=3.0)"]})
+        return len(sers)
+    except Exception as ex:  # noqa
+        ck.corr_problem("clock-step-back oracle could not run", repr(ex)[:300])
+        return 0
+    finally:
+        _t.time = real
+        shutil.rmtree(d, ignore_errors=True)
 
 
 def scripted_clock_oracle(ck):
